@@ -130,15 +130,13 @@ Definition live_step (L : list labels) (o : iop) : list labels :=
   end.
 Definition live (ops : list iop) : list labels := fold_left live_step ops [].
 
-(* the uploads that are still there: not followed by a delete whose selector they match *)
-Fixpoint live_puts (ops : list iop) : list (labels * bytes * N) :=
-  match ops with
-  | [] => []
-  | IPut K s c :: ops' =>
-      if existsb (fun o => match o with IDelete Q => sub_labels Q K | _ => false end) ops'
-      then live_puts ops' else (K, s, c) :: live_puts ops'
-  | IDelete _ :: ops' => live_puts ops'
+(* the uploads that are still there: not followed by a delete whose selector their series matches *)
+Definition lp_step (acc : list (labels * bytes * N)) (o : iop) : list (labels * bytes * N) :=
+  match o with
+  | IPut K s c => acc ++ [(K, s, c)]
+  | IDelete Q => filter (fun x => negb (sub_labels Q (fst (fst x)))) acc
   end.
+Definition live_puts (ops : list iop) : list (labels * bytes * N) := fold_left lp_step ops [].
 
 (* what a query for selector Q must aggregate: every live upload whose tags include Q's pairs, once *)
 Definition spec_get (Q : labels) (ops : list iop) : profile :=
